@@ -203,10 +203,17 @@ def generate(repo):
     raw = _func_body(rc, "reb_simulation_integrate_raw") or ""
     # fixes/C08-absorbed-step-error.diff: after reb_simulation_step, `r->t==t_before_step && r->dt==dt_before_step` -> GENERIC_ERROR
     has_guard = bool(re.search(r"reb_simulation_step\(r\);\s*if\s*\([^)]*r->t\s*==\s*\w+[^)]*r->dt\s*==\s*\w+", raw))
+    # v2 of the guard (fixes/C08-absorbed-step-error-v2.diff): only the second stalled step in a row is an error
+    guard_needs = 2 if re.search(r"steps_without_progress\s*>=\s*2", raw) else (1 if has_guard else 0)
+    # third variant (/repo addb1f3): the step only records no_progress, the error is raised at the top of the next pass of the loop
+    if re.search(r"no_progress\s*=\s*\(\s*r->t\s*==\s*\w+\s*&&\s*r->dt\s*==\s*\w+", raw) and re.search(r"if\s*\(\s*no_progress\s*\)", raw):
+        guard_needs = 3
+    if guard_needs >= 2:
+        has_guard = True
     integ_fn = _func_body(rc, "reb_simulation_integrate") or ""
     has_nan_guard = bool(re.search(r"isnan\s*\(\s*tmax\s*\)", integ_fn + raw))
     return "\n".join(L) + "\n", dict(enum=enum, table=table, problems=problems, kinds=kinds, lineno=lineno, has_progress_guard=has_guard,
-                                    has_nan_guard=has_nan_guard)
+                                    has_nan_guard=has_nan_guard, guard_needs=guard_needs)
 
 
 if __name__ == "__main__":
